@@ -48,7 +48,7 @@ Proof.
     + rewrite (pipe_prod_is_zero c alive [] n q Z). reflexivity.
     + unfold read_one. cbn [o_prod o_c o_alive o_sts o_q pipe_prod is_zero]. rewrite Z.
       destruct (if alive then srv_tick true (hd_error []) else ([], true)) as [fs ended].
-      destruct (cli_read c (q ++ fs)) as [[es o] r]. destruct o; cbn [fst snd pipe_after]; rewrite app_nil_r; reflexivity.
+      destruct (cli_read c (q ++ fs)) as [[es o] r]. destruct o as [b|v|t| |e|]; cbn [fst snd pipe_after]; rewrite app_nil_r; reflexivity.
   - destruct (is_zero n) eqn:Z.
     + exists 1. intro m. change (1 + m) with (S m). rewrite (csolo_step x m Ht), (cstep_open x _ Hc). cbn [o_n o_c o_a o_q o_alive].
       rewrite Z, (pipe_prod_is_zero c alive (s1 :: sts') n q Z). reflexivity.
@@ -57,7 +57,7 @@ Proof.
       cbn [pipe_prod]. rewrite Z.
       destruct (if alive then srv_tick true (hd_error (s1 :: sts')) else ([], true)) as [fs ended].
       destruct (cli_read c (q ++ fs)) as [[es o] r].
-      destruct o.
+      destruct o as [b|v|t| |e|].
       * (* RdData: the stream goes on *)
         rewrite (pipe_prod_zero c (alive && negb ended) sts' r) in Hs.
         set (x' := go_on x (es ++ [EBatch b])
@@ -88,7 +88,7 @@ Proof.
     cbn [pipe_exch].
     destruct (if alive then srv_tick false (hd_error sts) else ([], true)) as [fs ended].
     destruct (cli_read c (q ++ fs)) as [[es o] r].
-    destruct o.
+    destruct o as [b|v|t| |e|].
     + set (x' := go_on x (es ++ [EBatch b])
                    {| o_prod := false; o_c := c; o_a := a; o_alive := alive && negb ended; o_sts := tl sts; o_n := Some n'; o_q := r |}) in *.
       destruct (IH (tl sts) x' c a (alive && negb ended) r eq_refl Ht) as [j Hj].
@@ -122,24 +122,24 @@ Lemma stream_call x sp h prod c a n r cl
                      todo y <> [] ->
                      exists j, forall m, csolo (j + m) y = csolo m (end_call y (fst (body alive q) ++ pipe_after c a (snd (body alive q))))) ->
   exists j x', (forall m, csolo (j + m) (open_call x sp h prod c a n) = csolo m x')
-               /\ after_call x x' (cut (pipe_stream sp h c a body)) r.
+               /\ after_call x x' (cut (pipe_stream_for (negb prod) sp h c a body)) r.
 Proof.
-  intros [Hi Ha] Ht Hloop. unfold open_call, pipe_stream.
-  destruct (srv_init sp h) as [q0 alive]. destruct h.
+  intros [Hi Ha] Ht Hloop. unfold open_call, pipe_stream_for.
+  destruct (srv_init_for (negb prod) sp h) as [q0 alive]. destruct h.
   - destruct (cli_read c q0) as [[es o] r0].
     assert (E : forall es', exists j x', (forall m, csolo (j + m)
                (end_call x es') = csolo m x')
                /\ after_call x x' (cut es') r).
     { intro es'. exists 0. eexists. split; [intro m; reflexivity|].
       unfold after_call, between, end_call. simpl. rewrite Ha, Ht. simpl. repeat split; reflexivity. }
-    destruct o; try apply E.
-    set (y := go_on x (es ++ [EHeader h]) {| o_prod := prod; o_c := c; o_a := a; o_alive := alive; o_sts := steps sp; o_n := n; o_q := skip_eos r0 |}).
+    destruct o as [b0|v|t0| |e0|]; try apply E.
+    set (y := go_on x (es ++ [EHeader v]) {| o_prod := prod; o_c := c; o_a := a; o_alive := alive; o_sts := steps sp; o_n := n; o_q := skip_eos r0 |}).
     assert (Hy : todo y <> []) by (unfold y, go_on; simpl; rewrite Ht; discriminate).
     destruct (Hloop alive (skip_eos r0) y eq_refl Hy) as [j Hj].
     exists j. eexists. split; [exact Hj|].
     destruct (body alive (skip_eos r0)) as [es' z]. cbn [fst snd].
     unfold after_call, between, end_call, y, go_on. simpl. rewrite Ha, Ht. simpl.
-    replace ((es ++ [EHeader h]) ++ es' ++ pipe_after c a z) with (es ++ EHeader h :: es' ++ pipe_after c a z)
+    replace ((es ++ [EHeader v]) ++ es' ++ pipe_after c a z) with (es ++ EHeader v :: es' ++ pipe_after c a z)
       by (rewrite <- app_assoc; reflexivity).
     repeat split; reflexivity.
   - set (y := go_on x [] {| o_prod := prod; o_c := c; o_a := a; o_alive := alive; o_sts := steps sp; o_n := n; o_q := q0 |}).
